@@ -2,5 +2,10 @@ import Gossamer.Props.C05
 open Gossamer Gossamer.C05
 #print axioms C05_sound
 #print axioms C05_sound_map_partial
+#print axioms C05_sound_map_counterexample
 #print axioms C05_absent
 #print axioms C05_wrong_value
+#print axioms C05_empty_claim_counterexample
+#print axioms C05_generate_absent_counterexample
+#print axioms Gossamer.C05.verify_sound_inj
+#print axioms Gossamer.Bridge.decode_encodeNode
